@@ -45,10 +45,15 @@ theorem natOfDigits_decimal (n : Nat) : natOfDigits (decimal n) = n := by
   have := (decimal_spec n).2.2 0
   simpa [natOfDigits] using this
 
-theorem pyInt_decimal (n : Nat) : pyInt (decimal n) = .ok n := by
+theorem pyInt_decimal (n : Nat) (hlen : (decimal n).length ≤ maxIntDigits) : pyInt (decimal n) = .ok n := by
   obtain ⟨h1, h2, _⟩ := decimal_spec n
   unfold pyInt
-  rw [if_pos ⟨h1, List.all_eq_true.mpr h2⟩, natOfDigits_decimal]
+  rw [if_pos ⟨h1, List.all_eq_true.mpr h2, hlen⟩, natOfDigits_decimal]
+
+/-- `QInteger.parse` on the numeral of `n`, when the runtime's `int()` accepts its length -/
+theorem parseIntTok_decimal (n : Nat) (hlen : (decimal n).length ≤ maxIntDigits) :
+    parseIntTok (decimal n) = .ok n := by
+  unfold parseIntTok; rw [pyInt_decimal n hlen]
 
 /-! ### identifiers -/
 
